@@ -159,7 +159,7 @@ class Gen:
         if k < 0.93 and 'str' in self.f:
             return ('str', r.choice(['"a b"', "'x'", '"semi;colon"', '"br{ace}"', "'it'", '"/* c */"', '"Helvetica Neue"']))
         if 'url' in self.f:
-            return ('url', r.choice(['"img/a.png"', "'b.gif'", '"http://x.y/z.png"']))
+            return ('url', r.choice(['"img/a.png"', "'b.gif'", '"http://x.y/z.png"', '"img(1).png"', '"a)b.png"', "'c (2).gif'", '"d,e;f.png"']))
         return ('word', r.choice(WORDS))
 
     STRING_SPECIALS = ['url(x)y', 'a,b', 'a , b', ' ;', '{', '}', '/* c */', '// c', '  two  spaces', 'a+b', '1 + 2', '#fff', ')', '(', 'a:b', '!important', '~', '.cls',
@@ -274,7 +274,13 @@ class Gen:
     def keyframes(self, scopevars=()):
         r = self.rng
         sv = list(scopevars) if 'var' in self.f else []          # variables are still evaluated inside the frames
-        frames = [(r.choice(['from', 'to', '50%', '0%', '100%', '33.3%']), [self.decl(sv) for _ in range(r.choice([1, 2]))]) for _ in range(r.choice([1, 2, 3]))]
+        frames = []
+        for _ in range(r.choice([1, 2, 3])):
+            decls = [self.decl(sv) for _ in range(r.choice([1, 2]))]
+            if sv and 'framevar' in self.f and r.random() < 0.4:
+                # a frame redefines a variable for itself; the later frames must still see the outer one
+                decls.insert(0, ('var', r.choice(sv), [('num', self.number())]))
+            frames.append((r.choice(['from', 'to', '50%', '0%', '100%', '33.3%']), decls))
         return ('keyframes', r.choice(['@keyframes', '@-webkit-keyframes', '@-moz-keyframes', '@-o-keyframes', '@-ms-keyframes']), r.choice(['spin', 'fade', 'k1']), frames)
 
     def rule(self, depth, nested, scopevars, media_depth=0):
